@@ -15,6 +15,22 @@
 (* wire in the model (ByteBuffer.WriteTo / AsyncWriteAll loop until done);   *)
 (* it is a scenario parameter that the driver enforces on the real code.     *)
 (*                                                                           *)
+(* Deferred transport (dm # ""): asynchronous transport writes complete only *)
+(* at `Acc` steps of the scenario, possibly after a partial acceptance       *)
+(* (Acc(1): part of the parked write, Acc(0): the rest of it).  The model    *)
+(* then follows AsyncFlush/asyncFlush/endFlush of stream.go: ONE flush in    *)
+(* flight (`fl`), which pops one frame per transport write (`wr`) and also   *)
+(* writes what is queued meanwhile; a frame goes back to the pool when its   *)
+(* write completes.  The application keeps an AsyncNextFrame read loop armed *)
+(* (`rds`): a Ping is surfaced when that read is parked on the transport,    *)
+(* the Pong is queued, and the re-armed read flushes it - at once, or by     *)
+(* waiting for the flush in flight.  So AsyncClose, further writes and       *)
+(* automatic Pongs are submitted while a write is in flight, in every order. *)
+(* dm = "slot": the transport keeps one write record like sonic.AsyncAdapter *)
+(* (a second write would overwrite it), "queue": it queues writes; the       *)
+(* model does not depend on it (at most one transport write is outstanding), *)
+(* the driver does.                                                          *)
+(*                                                                           *)
 (* Defects found on the pinned tree, kept as switches (FALSE = repaired):    *)
 (*  BUG_StaleLen   prepareWrite does not cut the slice to header + declared  *)
 (*                 payload: a frame whose payload was never set goes out     *)
@@ -35,6 +51,8 @@ CONSTANTS Max,            \* SetMaxMessageSize
           MaxCalls,       \* calls per scenario
           FinishAnytime,  \* TRUE: a scenario may end after any call (exhaustive histories);
                           \* FALSE: only after MaxCalls calls (simulation)
+          DModes,         \* transport flavours (scenario parameter): "" = completions inside the call,
+                          \* "slot" / "queue" = deferred completions
           BUG_StaleLen, BUG_LateMask, BUG_ShortReuse
 
 VARIABLES st,      \* "active" | "closedByUs"
@@ -43,10 +61,16 @@ VARIABLES st,      \* "active" | "closedByUs"
           nid, ncalls, pp,
           outq,    \* events still to be emitted for the current call
           ended,
+          dm,      \* transport flavour of the scenario
+          fl,      \* Stream.flushing (deferred transport)
+          wr,      \* the transport write in flight: [set, f, sofar]  (sofar = 1: partly accepted)
+          rds,     \* the application's read loop: "parked" on the transport | "wait" in flushWaiters |
+                   \* "own" = its AsyncFlush started the flush in flight
           wmax, expq, refused, bad,   \* monitor
           hist
 
-implvars == <<st, pool, pend, nid, ncalls, pp, outq, ended>>
+implvars == <<st, pool, pend, nid, ncalls, pp, outq, ended, dm, fl, wr, rds>>
+dvars    == <<fl, wr, rds>>
 monvars  == <<wmax, expq, refused, bad>>
 vars     == <<implvars, monvars, hist>>
 
@@ -59,7 +83,7 @@ ExtBytesOf(n) == IF n > 65535 THEN <<0, 0, 0, 0, n \div 16777216, (n \div 65536)
 L7(n) == IF n > 65535 THEN 127 ELSE IF n > 125 THEN 126 ELSE n
 HdrOf(op, n) == <<128 + op, 128 + L7(n)>> \o ExtBytesOf(n) \o <<0, 0, 0, 0>>
 
-E0 == [c |-> "wswire", ev |-> "", sid |-> 0, i |-> 0, max |-> 0, pp |-> "", api |-> "", src |-> "", id |-> 0,
+E0 == [c |-> "wswire", ev |-> "", sid |-> 0, i |-> 0, max |-> 0, pp |-> "", dm |-> "", api |-> "", src |-> "", id |-> 0,
        op |-> 0, fin |-> 0, plen |-> 0, err |-> "", cb |-> 0, hdr |-> <<>>, rsv |-> 0, m |-> 0, dl |-> 0,
        minimal |-> 0, pid |-> 0, n |-> 0]
 
@@ -105,11 +129,16 @@ PutAll(p, fs) == IF fs = <<>> THEN p ELSE PutAll(Put(p, fs[1].slen), Tail(fs))
 
 Emit(e) == Mon!Obs(e) /\ hist' = Append(hist, e)
 
+NoWr == [set |-> FALSE, f |-> [id |-> 0, op |-> 0, n |-> 0, slen |-> 0, corrupt |-> FALSE], sofar |-> 0]
+WrOf(f) == [set |-> TRUE, f |-> f, sofar |-> 0]
+AsyncApi(api) == api \in {"AsyncWrite", "AsyncWriteFrame", "AsyncClose"}
+
 Init ==
   /\ st = "active" /\ pool = [priv |-> -1, sh |-> <<>>] /\ pend = <<>> /\ nid = 1 /\ ncalls = 0
   /\ pp \in PPs /\ outq = <<>> /\ ended = FALSE
+  /\ dm \in DModes /\ fl = FALSE /\ wr = NoWr /\ rds = "parked"
   /\ wmax = Max /\ expq = <<>> /\ refused = {} /\ bad = ""
-  /\ hist = << [E0 EXCEPT !.ev = "New", !.max = Max, !.pp = pp] >>
+  /\ hist = << [E0 EXCEPT !.ev = "New", !.max = Max, !.pp = pp, !.dm = dm] >>
 
 CallEv(api, src, op, n, err) ==
   [E0 EXCEPT !.ev = "Call", !.api = api, !.src = src, !.id = nid, !.op = op, !.fin = 1, !.plen = n, !.err = err,
@@ -120,11 +149,19 @@ Submit(api, src, op, n, b, p1) ==
   LET pr == Prepare(b) IN
   IF pr.panic THEN
     /\ Emit(CallEv(api, src, op, n, "panic")) /\ ended' = TRUE
-    /\ UNCHANGED <<st, pool, pend, outq>>
+    /\ UNCHANGED <<st, pool, pend, outq, dvars>>
   ELSE
     LET fs == Append(pend, [id |-> nid, op |-> op, n |-> b.n, slen |-> pr.slen, corrupt |-> pr.corrupt]) IN
-    /\ Emit(CallEv(api, src, op, n, "nil"))
-    /\ outq' = FlushOut(fs) /\ pool' = PutAll(p1, fs) /\ pend' = <<>> /\ ended' = FALSE
+    IF dm = "" THEN
+      /\ Emit(CallEv(api, src, op, n, "nil"))
+      /\ outq' = FlushOut(fs) /\ pool' = PutAll(p1, fs) /\ pend' = <<>> /\ ended' = FALSE
+      /\ UNCHANGED dvars
+    ELSE
+      \* AsyncFlush: joins the flush in flight, or starts one (one frame per transport write)
+      /\ Emit(CallEv(api, src, op, n, "parked"))
+      /\ pool' = p1 /\ outq' = <<>> /\ ended' = FALSE /\ UNCHANGED rds
+      /\ IF fl THEN pend' = fs /\ UNCHANGED <<fl, wr>>
+               ELSE fl' = TRUE /\ wr' = WrOf(fs[1]) /\ pend' = Tail(fs)
 
 \* opcode variety without a bigger alphabet: odd lengths (and "none") are text, even ones binary
 OpOf(n) == IF n % 2 = 0 THEN 2 ELSE 1
@@ -133,44 +170,44 @@ Quiet == ~ended /\ outq = <<>> /\ bad = "" /\ ncalls < MaxCalls
 
 \* Write / AsyncWrite
 WriteMsg(api, n) ==
-  /\ Quiet
-  /\ nid' = nid + 1 /\ ncalls' = ncalls + 1 /\ UNCHANGED pp
+  /\ Quiet /\ (dm # "" => AsyncApi(api))
+  /\ nid' = nid + 1 /\ ncalls' = ncalls + 1 /\ UNCHANGED <<pp, dm>>
   /\ IF n > Max THEN
-       /\ Emit(CallEv(api, "msg", OpOf(n), n, "toobig")) /\ UNCHANGED <<st, pool, pend, outq, ended>>
+       /\ Emit(CallEv(api, "msg", OpOf(n), n, "toobig")) /\ UNCHANGED <<st, pool, pend, outq, ended, dvars>>
      ELSE IF st # "active" THEN
-       /\ Emit(CallEv(api, "msg", OpOf(n), n, "cancelled")) /\ UNCHANGED <<st, pool, pend, outq, ended>>
+       /\ Emit(CallEv(api, "msg", OpOf(n), n, "cancelled")) /\ UNCHANGED <<st, pool, pend, outq, ended, dvars>>
      ELSE LET b == Build("msg", n, pool) IN
        IF b.panic THEN /\ Emit(CallEv(api, "msg", OpOf(n), n, "panic")) /\ ended' = TRUE
-                       /\ UNCHANGED <<st, pool, pend, outq>>
+                       /\ UNCHANGED <<st, pool, pend, outq, dvars>>
        ELSE Submit(api, "msg", OpOf(n), n, b, b.pool) /\ UNCHANGED st
 
 \* WriteFrame / AsyncWriteFrame with a frame from AcquireFrame or NewFrame; n = -1: no SetPayload
 WriteFrm(api, src, n) ==
-  /\ Quiet
-  /\ nid' = nid + 1 /\ ncalls' = ncalls + 1 /\ UNCHANGED pp
+  /\ Quiet /\ (dm # "" => AsyncApi(api))
+  /\ nid' = nid + 1 /\ ncalls' = ncalls + 1 /\ UNCHANGED <<pp, dm>>
   /\ LET b == Build(src, n, pool) IN
      IF b.panic THEN /\ Emit(CallEv(api, src, OpOf(n), n, "panic")) /\ ended' = TRUE
-                     /\ UNCHANGED <<st, pool, pend, outq>>
+                     /\ UNCHANGED <<st, pool, pend, outq, dvars>>
      ELSE IF st # "active" THEN   \* the frame is released into the pool
        /\ Emit(CallEv(api, src, OpOf(n), n, "cancelled"))
-       /\ pool' = Put(b.pool, b.slen) /\ UNCHANGED <<st, pend, outq, ended>>
+       /\ pool' = Put(b.pool, b.slen) /\ UNCHANGED <<st, pend, outq, ended, dvars>>
      ELSE Submit(api, src, OpOf(n), n, b, b.pool) /\ UNCHANGED st
 
 \* Close / AsyncClose with a payload of n bytes (status code + reason)
 CloseIt(api, n) ==
-  /\ Quiet
-  /\ nid' = nid + 1 /\ ncalls' = ncalls + 1 /\ UNCHANGED pp
+  /\ Quiet /\ (dm # "" => AsyncApi(api))
+  /\ nid' = nid + 1 /\ ncalls' = ncalls + 1 /\ UNCHANGED <<pp, dm>>
   /\ IF st # "active" THEN
-       /\ Emit(CallEv(api, "ctl", 8, n, "cancelled")) /\ UNCHANGED <<st, pool, pend, outq, ended>>
+       /\ Emit(CallEv(api, "ctl", 8, n, "cancelled")) /\ UNCHANGED <<st, pool, pend, outq, ended, dvars>>
      ELSE LET b == Build("ctl", n, pool) IN
        IF b.panic THEN /\ Emit(CallEv(api, "ctl", 8, n, "panic")) /\ ended' = TRUE
-                       /\ UNCHANGED <<st, pool, pend, outq>>
+                       /\ UNCHANGED <<st, pool, pend, outq, dvars>>
        ELSE Submit(api, "ctl", 8, n, b, b.pool) /\ st' = "closedByUs"
 
 \* the peer's ping, read with NextFrame: pending frames are flushed first, then the pong is queued
 PingIn(n) ==
-  /\ Quiet
-  /\ nid' = nid + 1 /\ ncalls' = ncalls + 1 /\ UNCHANGED <<pp, st, ended>>
+  /\ Quiet /\ dm = ""
+  /\ nid' = nid + 1 /\ ncalls' = ncalls + 1 /\ UNCHANGED <<pp, st, ended, dm, dvars>>
   /\ LET p1 == PutAll(pool, pend)
          b  == Build("pong", n, p1)
          pr == Prepare(b)
@@ -184,17 +221,63 @@ PingIn(n) ==
           /\ Emit([E0 EXCEPT !.ev = "Ping", !.id = nid, !.op = 9, !.fin = 1, !.plen = n, !.err = "inactive"])
           /\ pend' = <<>> /\ pool' = p1
 
+\* ---- deferred transport -----------------------------------------------------
+\* what the re-armed AsyncNextFrame does with the queue q: nothing queued -> the transport read is
+\* parked at once; a flush in flight -> its callback waits; else it starts the flush
+Rearm(q) ==
+  IF q = <<>> THEN pend' = q /\ rds' = "parked" /\ UNCHANGED <<fl, wr>>
+  ELSE IF fl THEN pend' = q /\ rds' = "wait" /\ UNCHANGED <<fl, wr>>
+  ELSE fl' = TRUE /\ wr' = WrOf(q[1]) /\ pend' = Tail(q) /\ rds' = "own"
+
+\* the peer's ping is delivered to the parked AsyncNextFrame: the pong is queued, the callback re-arms the read
+PingInD(n) ==
+  /\ Quiet /\ dm # "" /\ rds = "parked"
+  /\ nid' = nid + 1 /\ ncalls' = ncalls + 1 /\ UNCHANGED <<pp, dm, st, ended, outq>>
+  /\ IF st = "active" THEN
+       LET b  == Build("pong", n, pool)
+           pr == Prepare(b)
+       IN /\ Emit([E0 EXCEPT !.ev = "Ping", !.id = nid, !.op = 9, !.fin = 1, !.plen = n, !.err = "nil"])
+          /\ pool' = b.pool
+          /\ Rearm(Append(pend, [id |-> nid, op |-> 10, n |-> n, slen |-> pr.slen, corrupt |-> FALSE]))
+     ELSE
+       /\ Emit([E0 EXCEPT !.ev = "Ping", !.id = nid, !.op = 9, !.fin = 1, !.plen = n, !.err = "inactive"])
+       /\ UNCHANGED pool /\ Rearm(pend)
+
+\* the transport accepts bytes of the parked write (k = 1: a part, k = 0: the rest, which completes it:
+\* the frame goes back to the pool, asyncFlush takes the next frame or endFlush runs the callbacks)
+Acc(k) ==
+  /\ ~ended /\ outq = <<>> /\ bad = "" /\ dm # "" /\ wr.set
+  /\ k = 1 => wr.sofar = 0
+  /\ hist' = Append(hist, [E0 EXCEPT !.ev = "Acc", !.n = k]) /\ UNCHANGED monvars
+  /\ UNCHANGED <<st, nid, ncalls, pp, dm, ended>>
+  /\ IF k = 1 THEN wr' = [wr EXCEPT !.sofar = 1] /\ UNCHANGED <<pool, pend, outq, fl, rds>>
+     ELSE /\ outq' = FlushOut(<<wr.f>>)
+          /\ pool' = Put(pool, wr.f.slen)
+          /\ IF pend # <<>> THEN wr' = WrOf(pend[1]) /\ pend' = Tail(pend) /\ UNCHANGED <<fl, rds>>
+                           ELSE wr' = NoWr /\ fl' = FALSE /\ rds' = "parked" /\ UNCHANGED pend
+
+\* end of a deferred scenario, as the driver does it: let the transport accept everything, AsyncFlush, again
+FinishD ==
+  /\ ~ended /\ outq = <<>> /\ bad = "" /\ dm # ""
+  /\ FinishAnytime \/ ncalls = MaxCalls
+  /\ LET fs   == (IF wr.set THEN <<wr.f>> ELSE <<>>) \o pend
+         outs == FlushOut(fs)
+         all  == IF outs # <<>> /\ outs[Len(outs)].ev = "End" THEN outs ELSE Append(outs, [E0 EXCEPT !.ev = "End", !.err = "nil"])
+     IN /\ Emit(all[1]) /\ outq' = Tail(all) /\ ended' = (all[1].ev = "End")
+        /\ pool' = PutAll(pool, fs) /\ pend' = <<>> /\ wr' = NoWr /\ fl' = FALSE /\ rds' = "parked"
+  /\ UNCHANGED <<st, nid, ncalls, pp, dm>>
+
 \* emit the next produced event
 Drain ==
   /\ ~ended /\ outq # <<>> /\ bad = ""
   /\ Emit(outq[1])
   /\ outq' = Tail(outq)
   /\ ended' = (outq[1].ev = "End")
-  /\ UNCHANGED <<st, pool, pend, nid, ncalls, pp>>
+  /\ UNCHANGED <<st, pool, pend, nid, ncalls, pp, dm, dvars>>
 
 \* final Flush of the driver
 Finish ==
-  /\ ~ended /\ outq = <<>> /\ bad = ""
+  /\ ~ended /\ outq = <<>> /\ bad = "" /\ dm = ""
   /\ FinishAnytime \/ ncalls = MaxCalls
   /\ IF pend = <<>> THEN
        /\ Emit([E0 EXCEPT !.ev = "End", !.err = "nil"]) /\ ended' = TRUE /\ UNCHANGED <<outq, pool, pend>>
@@ -204,16 +287,17 @@ Finish ==
        IN
        /\ Emit(all[1]) /\ outq' = Tail(all) /\ ended' = (all[1].ev = "End")
        /\ pool' = PutAll(pool, pend) /\ pend' = <<>>
-  /\ UNCHANGED <<st, nid, ncalls, pp>>
+  /\ UNCHANGED <<st, nid, ncalls, pp, dm, dvars>>
 
 Next ==
   \/ \E api \in {"Write", "AsyncWrite"}, n \in Lens \cup {Max, Max + 1} : WriteMsg(api, n)
   \/ \E api \in {"WriteFrame", "AsyncWriteFrame"}, src \in {"acq", "newm", "newp"}, n \in Lens \cup {-1} :
        WriteFrm(api, src, n)
   \/ \E api \in {"Close", "AsyncClose"}, n \in {2, 125} : CloseIt(api, n)
-  \/ \E n \in {0, 125} : PingIn(n)
+  \/ \E n \in {0, 125} : PingIn(n) \/ PingInD(n)
+  \/ \E k \in {0, 1} : Acc(k)
   \/ Drain
-  \/ Finish
+  \/ Finish \/ FinishD
 
 Spec == Init /\ [][Next]_vars
 
@@ -223,6 +307,10 @@ TypeOK ==
   /\ st \in {"active", "closedByUs"}
   /\ pool.priv >= -1
   /\ nid = ncalls + 1
+  /\ rds \in {"parked", "wait", "own"}
+  /\ (dm = "" => ~fl /\ ~wr.set /\ rds = "parked")
+  \* a flush in flight always has a transport write outstanding, and nothing is queued without one
+  /\ (fl <=> wr.set) /\ (pend # <<>> /\ dm # "" => fl) /\ (rds # "parked" => fl)
 
 \* with every switch off, whatever is accepted reaches the wire exactly once, in order
 Quiescent == ended /\ bad = "" => expq = <<>>
